@@ -118,6 +118,14 @@ NoEnv == UNCHANGED <<spur, eintr, weak>>
 \* The scaled constants preserve the carry structure: real overflow <=> scaled sum >= 32.
 EagerTryAdd == FALSE
 TryOverflows(s, add) == EagerTryAdd /\ s + add >= 32
+\* NotifyDistinct: the model represents writer_notify as a COUNTER, i.e. every wake_writer moves the
+\* word to a value different from every value a current sampler (seq[t] of a writer between its
+\* sample and its FUTEX_WAIT) holds.  A toggle (fetch_xor 1) does not have that property: an even
+\* number of notifications inside one sample->wait window restores the sampled value (ABA) and
+\* the writer sleeps on a free lock.  NotifyToggle <- TRUE models such an implementation; the check
+\* uses its counterexample as a directed schedule for the real code.
+NotifyToggle == FALSE
+NotifyStep(n) == IF NotifyToggle THEN 1 - n ELSE n + 1
 Spurious(t) == weak[t] < MaxWeak /\ weak' = [weak EXCEPT ![t] = @ + 1] /\ UNCHANGED <<spur, eintr>>
 
 \* =========================== read() ===========================
@@ -305,7 +313,7 @@ KCasBoth(t) ==
 \* wake_writer(): self.writer_notify.fetch_add(1, Release);
 KwFetchAdd(t) ==
     /\ pc[t] \in {"kw_add_a", "kw_add_b"}
-    /\ RmwN(t, "KwFetchAdd", notify + 1)
+    /\ RmwN(t, "KwFetchAdd", NotifyStep(notify))
     /\ Goto(t, IF pc[t] = "kw_add_a" THEN "kw_wake_a" ELSE "kw_wake_b")
     /\ UNCHANGED <<state, prog, st, oww, seq, wst, qs, qn, assertBad>> /\ NoGuard /\ NoData /\ NoEnv
 \* futex_wake(&self.writer_notify, 1).unwrap() != 0
